@@ -149,6 +149,38 @@ def shapes():
         out.append(("big_derive_%d" % n, "SCHEMA s;\nENTITY e;\n a : INTEGER;\nDERIVE\n d : INTEGER := " + " + ".join(["a"] * n) + ";\nEND_ENTITY;\nEND_SCHEMA;\n", None))
     out.append(("func_ref_without_args", BASE % "FUNCTION f (x : INTEGER) : INTEGER;\nRETURN (x);\nEND_FUNCTION;\nRULE r FOR (e);\nWHERE wr1 : f > 0;\nEND_RULE;", None))
     out.append(("proc_call_without_args", BASE % "PROCEDURE p (x : INTEGER);\nEND_PROCEDURE;\nFUNCTION g : INTEGER;\np;\nRETURN (1);\nEND_FUNCTION;", None))
+    # runs of white space around the scanner's buffer size (512), between any two tokens and at the end of the file
+    for n in (100, 510, 511, 512, 513, 600, 1100, 5000):
+        for ch, cn in ((" ", "blanks"), ("\t", "tabs"), ("\n", "newlines")):
+            if cn != "blanks" and n not in (512, 600, 5000):
+                continue
+            w = ch * n
+            out.append(("%s_%d_after_semicolon" % (cn, n), "SCHEMA s;" + w + "\nENTITY e;\n a : INTEGER;\nEND_ENTITY;\nEND_SCHEMA;\n", ("valid", 0)))
+            out.append(("%s_%d_inside_declaration" % (cn, n), "SCHEMA s;\nENTITY e;\n a :" + w + "INTEGER" + w + ";\nEND_ENTITY;\nEND_SCHEMA;\n", ("valid", 0)))
+            out.append(("%s_%d_before_remark" % (cn, n), "SCHEMA s;" + w + "-- tail\nENTITY e;" + w + "(* r *)\n a : INTEGER;\nEND_ENTITY;\nEND_SCHEMA;\n", ("valid", 0)))
+            out.append(("%s_%d_at_end" % (cn, n), "SCHEMA s;\nENTITY e;\n a : INTEGER;\nEND_ENTITY;\nEND_SCHEMA;" + w, ("valid", 0)))
+    # long names in every place a name is declared (beyond the generators' name buffers: the open finding for exp2cxx / exp2python)
+    for n in (300, 999, 1000, 1101, 5000):
+        nm = "n" * n
+        for place, text in (
+            ("local_variable", "FUNCTION f (x : INTEGER) : INTEGER;\n LOCAL\n  %s : INTEGER := 0;\n  k : INTEGER := 1;\n END_LOCAL;\n RETURN (x + k);\nEND_FUNCTION;" % nm),
+            ("attribute", "ENTITY e2;\n %s : INTEGER;\n b : OPTIONAL REAL;\nEND_ENTITY;" % nm),
+            ("where_label", "ENTITY e2;\n b : INTEGER;\nWHERE\n %s : b > 0;\n w2 : b < 9;\nEND_ENTITY;" % nm),
+            ("parameter", "FUNCTION f (%s : INTEGER; y : REAL) : INTEGER;\n RETURN (%s);\nEND_FUNCTION;" % (nm, nm)),
+            ("function", "FUNCTION %s (x : INTEGER) : INTEGER;\n RETURN (x);\nEND_FUNCTION;" % nm),
+            ("constant", "CONSTANT\n %s : INTEGER := 1;\n c2 : REAL := 2.0;\nEND_CONSTANT;" % nm),
+            ("enumeration_item", "TYPE t = ENUMERATION OF (%s, other);\nEND_TYPE;" % nm),
+            ("rule", "RULE %s FOR (e);\nWHERE\n w : TRUE;\nEND_RULE;" % nm),
+        ):
+            out.append(("long_name_%d_%s" % (n, place), BASE % text, ("long_ident", n)))
+    # expressions longer than two fixed buffers (open findings): a CASE label (exppp measures it in char buffer[10000]) and an
+    # aggregate bound (exp2python prints it into 100000 bytes with strcat); below the buffers both are fine
+    for n in (2000, 12000):
+        out.append(("case_label_string_%d" % n, "SCHEMA s;\nFUNCTION f (x : STRING) : INTEGER;\n CASE x OF\n  '%s' : RETURN (1);\n  OTHERWISE : RETURN (2);\n END_CASE;\nEND_FUNCTION;\nENTITY e;\n a : INTEGER;\nEND_ENTITY;\nEND_SCHEMA;\n" % ("a" * n),
+                    ("growth", "case_label_length_buffer") if n > 9000 else ("valid", 0)))
+    for n in (2000, 60000):
+        out.append(("bound_expression_%d" % n, "SCHEMA s;\nFUNCTION f (a : STRING; b : STRING) : INTEGER;\n RETURN (1);\nEND_FUNCTION;\nENTITY x;\n l : LIST [0:f('%s', '%s')] OF INTEGER;\nEND_ENTITY;\nEND_SCHEMA;\n" % ("a" * n, "b" * n),
+                    ("growth", "exp2python_expression_buffer") if n > 40000 else ("valid", 0)))
     # known finding probe: identifiers longer than the BUFSIZ name buffers
     out.append(("long_ident_10k", "SCHEMA s;\nENTITY " + "e" * 10000 + ";\nEND_ENTITY;\nEND_SCHEMA;\n", ("long_ident", 10000)))
     return out
@@ -326,7 +358,8 @@ def main(tier, seed):
             what = "%s exits with status %d on %s without any diagnostic" % (tool, rc, name)
         elif exp and exp[0] == "valid" and rc != 0:
             what = "%s rejects the valid schema %s (status %d): %s" % (tool, name, rc, txt.strip()[-150:])
-        if exp and exp[0] == "long_ident" and what:
+        if exp and exp[0] == "long_ident" and what and tool in ("exp2cxx", "exp2python"):
+            # the open finding is about the generators' name buffers; the checker and the pretty printer must cope
             sig = "identifier_longer_than_name_buffers"
         if exp and exp[0] == "growth" and what:
             sig = exp[1]
